@@ -178,6 +178,12 @@ pub fn tracegen(opts: &Opts) -> i32 {
         }
     };
     let mut store = Some(store);
+    // C19: a store that has been idle (nothing buffered, nothing to retire) for a while before its
+    // first write must still bring that write to the device within the bound
+    let idle = opts.u64("idle_ms", 0);
+    if idle > 0 {
+        std::thread::sleep(std::time::Duration::from_millis(idle));
+    }
     let nkeys = match opts.u64("nkeys", 0) {
         0 => rng.range(2, 7),
         n => n,
@@ -984,7 +990,9 @@ pub fn run_lag(opts: &Opts) -> i32 {
                 let first = rng.below(17 - cpus);
                 let settle = *rng.pick(&[3000u64, 3500]);
                 let noise = rng.below(2);
-                let burst = rng.chance(1, 2);
+                let idle = if sh % 4 == 0 && w == 0 { 7000 } else { 0 };
+                let noise = if idle > 0 { 0 } else { noise };
+                let burst = idle == 0 && rng.chance(1, 2);
                 let args = vec![
                     "-c".to_string(),
                     format!("{}-{}", first, first + cpus - 1),
@@ -998,6 +1006,7 @@ pub fn run_lag(opts: &Opts) -> i32 {
                     format!("sync={}", rng.below(2)),
                     "noflush=1".into(),
                     format!("settle_ms={settle}"),
+                    format!("idle_ms={idle}"),
                     format!("noise={noise}"),
                     "ttl=0".into(),
                     "close=0".into(),
@@ -1031,7 +1040,7 @@ pub fn run_lag(opts: &Opts) -> i32 {
                 };
                 let states = key_states(&t);
                 let ack = acks(&t);
-                *dist.entry(format!("cpus={cpus} noise={noise} burst={}", burst as u8)).or_default() += 1;
+                *dist.entry(format!("cpus={cpus} noise={noise} burst={} idle={idle}", burst as u8)).or_default() += 1;
                 for (pi, plan) in ack_plans(&t).into_iter().enumerate() {
                     let img = build_image(&t, plan.durable_upto, &plan.extra);
                     let ipath = format!("{keep}/l{sh}_{w}_{pi}.img");
